@@ -90,21 +90,33 @@ Definition check_h (o : obs_graph) (k : Z) (a : attrs) : nat :=
 
 Fixpoint first_fail (l : list nat) : nat := match l with [] => 0%nat | 0%nat :: r => first_fail r | n :: _ => n end.
 
-(** explicit hydrogens (from fragments) before the completion, identified by (fragid, mapping) *)
-Definition explicit_h_ids (nodes : list (Z * attrs)) : list (pyval * pyval) :=
-  flat_map (fun p => let a := snd p in
-                     if is_H a && has_mapping a
-                     then [(getd (S "fragid") a VNone, getd (S "mapping") a VNone)] else []) nodes.
-Definition id_eqb (x y : pyval * pyval) : bool := pyval_eqb (fst x) (fst y) && pyval_eqb (snd x) (snd y).
-Definition explicit_kept (before final : list (Z * attrs)) : bool :=
-  let fin := explicit_h_ids final in
-  forallb (fun x => existsb (id_eqb x) fin) (explicit_h_ids before).
+(** explicit hydrogens (they come from a fragment: they carry `mapping`) present before the completion
+    must still be there afterwards, identified by (mapping, fragid) (5), with their own fragname / weight (6) *)
+Definition find_explicit (final : list (Z * attrs)) (m f : pyval) : option attrs :=
+  match find (fun p => is_H (snd p) && pyval_eqb (getd (S "mapping") (snd p) VNone) m
+                       && pyval_eqb (getd (S "fragid") (snd p) VNone) f) final with
+  | Some p => Some (snd p) | None => None end.
+Definition same_attr_strict (k : pystr) (a b : attrs) : bool :=
+  match aget k a, aget k b with
+  | Some x, Some y => pyval_eqb x y
+  | None, None => true
+  | _, _ => false
+  end.
+Definition check_explicit (final : list (Z * attrs)) (a : attrs) : nat :=
+  if is_H a && has_mapping a then
+    match find_explicit final (getd (S "mapping") a VNone) (getd (S "fragid") a VNone) with
+    | None => 5%nat
+    | Some b => if forallb (fun attr => same_attr_strict attr a b) rebuild_copy_attrs_default then 0%nat else 6%nat
+    end
+  else 0%nat.
+Definition explicit_kept (before final : list (Z * attrs)) : nat :=
+  first_fail (map (fun p => check_explicit final (snd p)) before).
 
 Definition holds_C09 (before : list (Z * attrs)) (final : obs_graph) : nat :=
   match first_fail (map (fun p => check_atom final (fst p) (snd p)) (fst final)) with
   | 0%nat =>
       match first_fail (map (fun p => check_h final (fst p) (snd p)) (fst final)) with
-      | 0%nat => if explicit_kept before (fst final) then 0%nat else 5%nat
+      | 0%nat => explicit_kept before (fst final)
       | n => n
       end
   | n => n
